@@ -209,7 +209,9 @@ def check_C17(c):
         traces.append({'kind': 'cliseeds', 'args': a, 'outs': o})
     # documented calls that take a mutable plain argument
     plain = pmake([('tr_plaincall', dict(call=k, model=mdl, seed=c.seed * 100 + i))
-                   for k in ('Model.reify', 'Model.reify(no variables)', 'format_triples', 'Graph', 'dumps', 'Model')
+                   for k in ('Model.reify', 'Model.reify(no variables)', 'format_triples', 'Graph', 'dumps', 'Model', 'model:reify(no reification)',
+                             'model:reify', 'model:dereify(not dereifiable)', 'model:is_role_reifiable', 'model:is_concept_dereifiable',
+                             'model:canonicalize_role', 'model:invert_role', 'model:has_role', 'model:errors')
                    for mdl in ('amr', 'miniamr') for i in range(_q(c, 12, 200))])
     traces += plain
     c.judge('J_Purity', traces, 'purity', nontrivial=lambda t: t['kind'] in ('cliseeds', 'plaincall') or len(t['hist']) >= 3)
